@@ -199,7 +199,7 @@ func (P *Program) VerifyFunc(fn *ssa.Function) (res *FuncResult) {
 							continue
 						}
 						v := env.evalTop(&Clause{Src: e, Expr: exx})
-						conds = append(conds, not(eq(rsk, v.Term)))
+						conds = append(conds, or(eq(rsk, "0"), not(eq(rsk, v.Term))))
 					}
 					g := implies(and(conds...), eq(app("select", cur, rsk), app("select", init, rsk)))
 					what := k.leaf
@@ -340,7 +340,7 @@ func (c *Ctx) frameObligations(fr *Frame, ex *exitInfo, locs []loc, name string,
 	sort.Strings(leafs)
 	next0 := c.next(fr.old)
 	for _, leaf := range leafs {
-		if leaf == "$next" {
+		if leaf == "$next" || scratchGhost(leaf) {
 			continue
 		}
 		cur := ex.st.heap[leaf]
